@@ -391,9 +391,64 @@ def r5b_builtin_lookup_copies(ctx, sym):
                   "constructor already parameterised and reports an extra issue")
 
 
+def r6_issue_locations(ctx, sym):
+    ctx.rule('R6', "sibling agreement over every TIFA issue class, each constructor executed abstractly: the location "
+                   "the visitor hands in (self.locate(): the node's own line plus the section offset) is the "
+                   "location Feedback.__init__ receives - no issue is recorded without its line")
+    from .. import symexec
+    from ..fdeval import Obj, Raised, Inconclusive
+    fmod = ctx.repo.module('pedal.tifa.feedbacks')
+    n = 0
+    for cname, cls in sorted(fmod.classes.items()):
+        init = [m for m in cls.body if isinstance(m, ast.FunctionDef) and m.name == '__init__']
+        if not init:
+            continue
+        params = [a.arg for a in init[0].args.args][1:]
+        if 'location' not in params:
+            continue
+        n += 1
+        ctx.analysed_function(fmod, init[0])
+        loc = Obj('location-from-locate', line=7, col=0, __open__=True)
+        rec = symexec.Recorder()
+        sup = Obj('super')
+        symexec.method(sup, '__init__', rec.stub('super().__init__'))
+        fmt = Obj('format', __open__=True)
+        fmt.attrs['__unknown_method__'] = lambda name, *a, **k: 'formatted'
+        report = Obj('report', format=fmt, __open__=True)
+        me = symexec.self_obj(fmod, cname)
+        args = [loc if p == 'location' else Obj('arg:' + p, __open__=True, name='n', singular_name='a thing',
+                                                 plural_name='things') for p in params]
+        fd = symexec.new_fd(sym, fmod, calls={'super': lambda *a: sup, 'str': lambda *a: 'text',
+                                              'len': lambda *a: 2, 'isinstance': lambda *a: False},
+                            extra={'MAIN_REPORT': report})
+        got = None
+        try:
+            fd.call_function(init[0], args, {'report': report}, bound_self=me)
+            built = rec.named('super().__init__')
+            if len(built) == 1:
+                got = built[0][2].get('location')
+            decided = True
+        except (Raised, Inconclusive):
+            # constructor outside the fragment: fall back to the argument handed to super().__init__
+            decided = False
+            for c in ast.walk(init[0]):
+                if isinstance(c, ast.Call) and isinstance(c.func, ast.Attribute) and c.func.attr == '__init__':
+                    for k in c.keywords:
+                        if k.arg == 'location' and isinstance(k.value, ast.Name) and k.value.id == 'location':
+                            got = loc
+        ctx.check(got is loc, 'R6', '%s:location-recorded' % cname, fmod, init[0],
+                  "%s(location, ...) hands %s to Feedback.__init__ as the issue's location (%s); every other TIFA "
+                  "issue records the location it was given" % (
+                      cname, 'nothing' if got is None else repr(got), 'executed' if decided else 'syntactic fallback'),
+                  "a program calling a number (`x = 5\\nx()`): the not_a_function issue has location None, so it "
+                  "has no line and anything ordering or offsetting issues by line fails on it")
+    ctx.floor('R6', 'TIFA issue classes with a location', n, 15)
+
+
 def run(ctx):
     sym = Symbols(ctx.repo)
     r5b_builtin_lookup_copies(ctx, sym)
+    r6_issue_locations(ctx, sym)
     r1_never_raises(ctx, sym)
     r1c_constants_complete(ctx, sym)
     from .c19 import binop_cells_callable
